@@ -214,6 +214,7 @@ fn scenario(job: Job, n: usize, p: u64, cap: usize, batch: BatchMode, bound: usi
         max_execs: 0,
         shards: 1,
         nontrivial: n > 0,
+        unbounded: false,
     }
 }
 
